@@ -636,7 +636,7 @@ func numEq(a, b *jnode) bool {
 	if a.kind == 'n' || b.kind == 'n' {
 		return a.kind == b.kind
 	}
-	return a.kind == '0' && b.kind == '0' && a.num == b.num
+	return a.kind == '0' && b.kind == '0' && math.Float64bits(a.num) == math.Float64bits(b.num) // bit for bit: -0 is not 0
 }
 
 // positions of a line / ring sequence: dimensionality d declared by the first position
@@ -785,22 +785,9 @@ func hasCircle(o geojson.Object) bool {
 	return false
 }
 
-// tag 70: args = s optbits ws document
-func implParse(a []int64) []int64 {
-	s, bits, ws := a[0], a[1], a[2]
-	doc, _ := decDoc(a[3:])
-	text := renderText(doc, ws)
+// parseFlags computes, for an accepted text, the seven flags of C06 / C08
+func parseFlags(text string, bits int64, s int64, o geojson.Object) [7]int64 {
 	opts := mkParseOpts(bits)
-	o, err := geojson.Parse(text, opts)
-	if err != nil {
-		if o != nil {
-			return []int64{-97} // both an object and an error
-		}
-		return []int64{errCode(err)}
-	}
-	if o == nil {
-		return []int64{-96}
-	}
 	tree := encObject(o, s)
 	js := o.JSON()
 	// C06: the output is accepted again, same kind tree, byte-identical output, same answers
@@ -853,12 +840,58 @@ func implParse(a []int64) []int64 {
 	if !hasCircle(o) {
 		f7 = b2i(infoPreserved(tokenize(text), tokenize(js)))
 	}
-	out := []int64{0, b2i(f1), b2i(f2), b2i(f3), b2i(f4), b2i(f5), b2i(f6), f7}
-	out = append(out, tree...)
+	return [7]int64{b2i(f1), b2i(f2), b2i(f3), b2i(f4), b2i(f5), b2i(f6), f7}
+}
+
+// tag 70: args = s optbits ws document
+func implParse(a []int64) []int64 {
+	s, bits, ws := a[0], a[1], a[2]
+	doc, _ := decDoc(a[3:])
+	text := renderText(doc, ws)
+	opts := mkParseOpts(bits)
+	o, err := geojson.Parse(text, opts)
+	if err != nil {
+		if o != nil {
+			return []int64{-97} // both an object and an error
+		}
+		return []int64{errCode(err)}
+	}
+	if o == nil {
+		return []int64{-96}
+	}
+	fl := parseFlags(text, bits, s, o)
+	out := append([]int64{0}, fl[:]...)
+	out = append(out, encObject(o, s)...)
 	out = append(out, -7)
-	out = append(out, bytesEnc(js)[1:]...)
+	out = append(out, bytesEnc(o.JSON())[1:]...)
 	out = append(out, -7)
 	return append(out, bytesEnc(o.Members())[1:]...)
+}
+
+// tag 75: args = optbits, then the bytes of a JSON-object text whose numbers / strings lie outside the
+// model's domain (negative zero, non-dyadic decimals, huge exponents, exotic strings).
+// Output [1] when the text is rejected or all seven flags hold (Circle: flag 7 = 2), else [0 flags..].
+func implParseOnly(a []int64) []int64 {
+	bits := a[0]
+	b := make([]byte, len(a)-1)
+	for i, x := range a[1:] {
+		b[i] = byte(x)
+	}
+	text := string(b)
+	o, err := geojson.Parse(text, mkParseOpts(bits))
+	if err != nil {
+		if o != nil {
+			return []int64{-97}
+		}
+		return []int64{1}
+	}
+	fl := parseFlags(text, bits, 40, o)
+	for i, f := range fl {
+		if f != 1 && !(i == 6 && f == 2) {
+			return append([]int64{0}, fl[:]...)
+		}
+	}
+	return []int64{1}
 }
 
 // tag 71: args = bytes of a text that is NOT one JSON object (invalid JSON, not an
@@ -878,6 +911,8 @@ func implParseText(a []int64) []int64 {
 func init() {
 	impls[70] = implParse
 	impls[73] = implParse
+	impls[76] = implParse
 	impls[74] = implParse
 	impls[71] = implParseText
+	impls[75] = implParseOnly
 }
